@@ -555,3 +555,63 @@ Proof.
   - rewrite hdesc_f. apply hfn_ld_or_st.
   - apply hdesc_acc.
 Qed.
+
+(** ** Lane independence of the sequential loop, for every handler that is a lift *)
+
+Lemma dst_val_veq : forall d a b, veq a b -> dst_val d a = dst_val d b.
+Proof.
+  intros d a b (Hv & Hs & He & Hc & _). unfold dst_val, pair_val. destruct (d_dst d); auto. rewrite !Hs. reflexivity.
+Qed.
+
+Lemma perm_out_veq : forall p d a a' b b', veq a a' -> veq b b' -> perm_out p d a' b' -> perm_out p d a b.
+Proof.
+  intros p d a a' b b' Ha Hb H.
+  pose proof (dst_val_veq d a a' Ha) as Da. pose proof (dst_val_veq d b b' Hb) as Db.
+  destruct Ha as (Av & As & Ae & Ac & Asc & Am & _). destruct Hb as (Bv & Bs & Be & Bc & Bsc & Bm & _).
+  destruct H as [H1 H2 H3 H4 H5 H6].
+  constructor.
+  - intros. rewrite Av, Bv. auto.
+  - intros. rewrite Ae, Be. auto.
+  - intros. rewrite Ac, Bc. auto.
+  - intros. rewrite Da, Db. auto.
+  - intros. rewrite As, Bs. auto.
+  - rewrite Asc, Am, Bsc, Bm. exact H6.
+Qed.
+
+Theorem seq_loop_lane_independent : forall d,
+  fn_ext (d_f d) -> ld_or_st (d_f d) -> (forall st, d_from_acc d = true -> acc0 d st = src_val d st) ->
+  lane_independent d.
+Proof.
+  intros d He Hl Ha.
+  assert (V : forall st, veq (seq_loop d st) (vec_lift d st)) by (intros; apply seq_loop_veq_lift; auto).
+  split.
+  - intros st i Hi. pose proof (V st) as Hv. pose proof (dst_val_veq d _ _ Hv) as Dv.
+    destruct Hv as (Vv & Vs & Ve & Vc & Vsc & Vm & Vg & Vl & Vt).
+    split; [intros r; rewrite Vv; apply vec_lift_vgpr_inactive; exact Hi|].
+    split.
+    { rewrite Dv.
+      assert (D : d_dst d = DNone \/ d_dst d <> DNone) by (destruct (d_dst d); [left; reflexivity|right; discriminate..]).
+      destruct D as [D|D].
+      - unfold acc0, dst_val. rewrite D. destruct (d_keep d); reflexivity.
+      - replace (dst_val d (vec_lift d st)) with (lift_mask d st)
+          by (symmetry; unfold vec_lift; apply wd_dst_val; exact D).
+        apply lift_mask_inactive; exact Hi. }
+    split.
+    { intros x Hx Hlane. rewrite Vt in Hx. destruct (vec_lift_trace d st x Hx) as [Hin|[_ Hact]]; [exact Hin|].
+      rewrite Hlane, Hi in Hact. discriminate. }
+    split; intros a Hna; [rewrite Vg; apply vec_lift_gmem_frame; exact Hna | rewrite Vl; apply vec_lift_lds_frame; exact Hna].
+  - intros p p' st st' Hp Hr.
+    destruct (V st) as (_ & _ & _ & _ & _ & _ & Vg & Vl & _). destruct (V st') as (_ & _ & _ & _ & _ & _ & Vg' & Vl' & _).
+    split; [|split].
+    + apply (perm_out_veq p d _ (vec_lift d st) _ (vec_lift d st')); auto. apply (vec_lift_perm_out p p'); auto.
+    + intros Hd a. rewrite Vg, Vg'. apply (vec_lift_perm_gmem p p' d st st' Hp He Hr Hd).
+    + intros Hd a. rewrite Vl, Vl'. apply (vec_lift_perm_lds p p' d st st' Hp He Hr Hd).
+Qed.
+
+Theorem hdesc_lane_independent : forall h o, lane_independent (hdesc h o).
+Proof.
+  intros. apply seq_loop_lane_independent.
+  - rewrite hdesc_f. apply hfn_ext.
+  - rewrite hdesc_f. apply hfn_ld_or_st.
+  - intros st. apply hdesc_acc.
+Qed.
